@@ -93,6 +93,16 @@ def run(ctx):
     if res["diffs"]:
         probe_setev_diffs(ctx, res["diffs"])
     r = gen.Rng(ctx.seed * 1000003 + 6)
+    # a claim/set whose write is cut short or fails: whatever stays in the log must still satisfy the invariant (no todo task with a claimant,
+    # no doing task without one) and a failed request must have left the task alone
+    from . import c10
+    def inv_after_fault(g, tr):
+        for bad in oracles.inv06(g):
+            ctx.violation("C06 inv %s after a write that failed" % bad[0], "state/claim invariant broken after an interrupted/failed write: %s" % (bad,), {"trace": tr, "bad": bad})
+            return True
+        return False
+    for i in range(4 if ctx.quick else 60):
+        c10.io_faults(ctx, r.fork(), prop="C06", torn=(i % 2 == 1), post_oracle=inv_after_fault)
     for h in range(25 if ctx.quick else 400):
         run_history(ctx, r.fork(), 30, WEIGHTS, oracle)
     ctx.cov["rule"] = ("exhaustive buildSetEvents table (state × claimed × kind × field-presence × values × agent) model vs Go; "
